@@ -63,6 +63,7 @@ def check_one(part, A, T, tname, reflect, npat, case):
     except Exception as e:
         part.fail("raise:" + key, "kabsch_rotation_matrix raised %r" % e, case)
         return
+    remember(part, R, case)
     R = np.asarray(R, dtype=float)
     orth = np.abs(R @ R.T - np.eye(3)).max()
     part.dev("orthogonality", orth)
@@ -94,8 +95,24 @@ def check_one(part, A, T, tname, reflect, npat, case):
     part.outcome((reflect, npat, round(ref, 3) > 0, len(A) > 4))
 
 
+_held = []
+
+
+def remember(part, R, case):
+    """results handed out earlier must not change when the routine is called again (no shared result buffers)"""
+    for (R0, copy0, case0) in _held:
+        if not np.array_equal(R0, copy0):
+            part.fail("result-aliasing", "a rotation matrix returned earlier changed after a later call of kabsch_rotation_matrix", case0)
+            _held.clear()
+            break
+    _held.append((R, np.array(R, copy=True), case))
+    if len(_held) > 3:
+        _held.pop(0)
+
+
 def worker(part, chunk, seed):
     tr = transforms(seed)
+    _held.clear()
     for (kind, pts, idx) in chunk:
         A = np.array(pts, dtype=float)
         part.nstates(1)
@@ -118,6 +135,7 @@ def dimer_checks(part, seed):
 
     water = (["O", "H", "H"], np.array([[0.0, 0.0, 0.1], [0.757, 0.586, 0.0], [-0.757, 0.586, 0.0]]))
     chfcl = (["C", "H", "F", "Cl", "Br"], np.array([[0.0, 0.0, 0.0], [0.63, 0.63, 0.63], [-0.8, -0.8, 0.8], [-1.0, 1.0, -1.0], [1.1, -1.1, -1.1]]))
+    alive = []
     for syms, pos in (water, chfcl):
         for tname, T in transforms(seed):
             part.ev()
@@ -135,6 +153,12 @@ def dimer_checks(part, seed):
             except Exception as e:
                 part.fail("dimer-raise", "Dimer(transform_ab='calculate') raised %r" % e, case)
                 continue
+            alive.append((d, np.array(R, copy=True), tname))
+            for (d0, R0, t0) in alive:
+                if not np.array_equal(np.asarray(d0.transform_ab[0]), R0):
+                    part.fail("dimer-aliasing", "the transform of an earlier Dimer (%s) changed when a later Dimer was built" % t0, case)
+                    alive.clear()
+                    break
             # the transform must map a onto b: b = (a - ca) @ R^? + ca + v ; accept either multiplication side, but consistently
             ca = a.centroid
             m1 = np.abs((pos - ca) @ R.T + ca + v - posb).max()
